@@ -45,6 +45,13 @@ func trunc(s string, n int) string {
 }
 
 func call(j *kit.JApi, op string) (r CallResult) {
+	if dl := asTask(func() { r = callInner(j, op) }); dl != "" {
+		r = CallResult{Panic: "DEADLOCK " + dl}
+	}
+	return r
+}
+
+func callInner(j *kit.JApi, op string) (r CallResult) {
 	defer func() {
 		if x := recover(); x != nil {
 			r = CallResult{Panic: fmt.Sprint(x), PanicAt: topRepoFrame()}
@@ -82,6 +89,7 @@ func applyEnv(e Env) {
 		simrt.SetMapOrder(e.MapMode, e.MapSeed, e.MapSites)
 	}
 	simrt.SetAmbient(e.Ambient)
+	taskSeed = e.Ambient // goroutines the code under test starts itself are interleaved by this seed
 	if e.DropAll {
 		simrt.PoolDropAll()
 	}
@@ -99,6 +107,7 @@ func applyEnv(e Env) {
 func canonicalEnv() {
 	simrt.SetMapOrder(0, 0, nil)
 	simrt.SetAmbient(0)
+	taskSeed = 0
 	simrt.PoolSimBegin(simrt.PoolConfig{Policy: simrt.PoolFreshOnly}, 0)
 }
 
